@@ -33,10 +33,10 @@ CHECKS = {
    text="PARTIAL: the lexer's primitives and its comment / raw-identifier / string lexers (erg_parser/lex.rs, Token::new in token.rs; real text, Verus). consume/peek_* return exactly the char at the cursor or None past the end; emit_singleline_token reports a token at the column and line where it begins; lex_comment, lex_raw_ident, lex_single_str, lex_multi_line_str and lex_interpolation_mid (with their bodies lex_*_) are total - no unwrap on None at end of input, no index or counter overflow, the interpolation stack is never popped below its sentinel - and terminate (decreases: remaining input); a comment swallows no newline; after a string token returned with Ok, whatever escape sequences or line breaks it contains, the column of the next token equals the number of source characters since the start of its line (pos_ok), and the token itself is reported at the column where it began.",
    note="Not carried: the ~400-line operator match in Iterator::next (incl. the EOF arm that emits one Dedent per open indent), number and symbol lexing, lex_space_indent_dedent/lex_indent_dedent, op_fix; hence neither totality of the whole lexer nor 'as many dedents as indents' is claimed. Position faithfulness is claimed for Ok results (after a reported error positions are not claimed). Assumed: std contracts of String/Vec operations (wrappers), literal lengths computed by the rewriter (R9), that the two chars of a \\x escape are hex digits when w_hex_to_char is reached (checked by code, not tracked), source texts below 2**28 chars.",
    technique=TECH_V + "; representation invariant lexer_wf and position invariant pos_ok/line_fresh; loop invariants and decreases spliced by loop ordinal"),
- "C11": dict(engine="kani", category="proof",
-   text="PARTIAL: the operator precedence table itself. For all pairs of token kinds, TokenKind::precedence orders the operators exactly as the documented table (member access > ** > prefix > * / // % > + - > shifts > && > ^^ > || > ranges > comparisons > and > or; same row <=> same precedence), no binary operator of the table is right-associative, and opening brackets bind weaker than every operator. Kani loop-free over all token kinds (complete).",
-   note="Not carried: the reduce loop in Parser::try_reduce_expr that consumes the table (a change of `>=` there is invisible to this check), Lexer::op_fix (minus before a literal), method calls and parentheses. The documented table is transcribed from the property statement.",
-   technique=TECH_K),
+ "C11": dict(engine="verus+kani", category="proof",
+   text="PARTIAL (binary operators and the operand of a prefix operator; member access, calls and parentheses are atoms): (Verus, real text of Parser::try_reduce_expr_above / try_reduce_expr / try_reduce_chunk / try_reduce_unary and collect_last_binop_on_stack, unbounded length) for every token sequence operand (op operand)* the operator-stack reduction returns the unique tree whose in-order token sequence is exactly the consumed input and in which every operator node has only operators of precedence >= its own in the left operand and > its own in the right operand (precedence order + left grouping, w.r.t. TokenKind::precedence), it stops only where no acceptable operator follows, the enum_unwrap!/compiler_bug arms are unreachable and the loops terminate; the operand of a prefix operator contains exactly the operators that bind at least as tightly as the prefix operator. (Kani, loop-free over all token kinds) TokenKind::precedence orders the operators exactly as the documented table (member access > ** > prefix > * / // % > + - > shifts > && > ^^ > || > ranges > comparisons > and > or), none of them is right-associative, brackets bind weaker than every operator.",
+   note="Assumed: the contract of Parser::try_reduce_bin_lhs (returns one operand, an atom of this invocation's tree, consuming its tokens), peek/lpop as front/pop_front of the token stream, BinOp::new/UnaryOp::new/Expr::BinOp store their arguments. Executions through the other arms of the token match (lambda, type ascription, member access after a non-name receiver, subscript, tuple, default parameter, pipeline, definition, call without parentheses) are outside the proof (their guards are kept, their bodies assumed away). Lexer::op_fix (prefix/infix classification, minus before a literal), method calls and parentheses are covered only by the replay search (real lexer+parser against a reference precedence-climbing parser on ~15,000 expressions; thorough 60,000), which is bounded and not counted as proof.",
+   technique=TECH_V + "; stack invariant (alternating shape, strictly ascending pending operators, neighbour conditions) spliced by loop ordinal; " + TECH_K),
  "C21": dict(engine="replay", category="exploration",
    text="BOUNDED, not a proof. No deductive back end reaches ModuleGraph/tsort (hash collections: Kani did not finish a 2-node tsort in 25 minutes; Verus rejects iter().find(closure), iter_mut(), retain(closure)). The contracts are executable predicates checked at run time after EVERY operation of EVERY operation sequence (add_node_if_none, inc_ref, remove, rename_path, sort) up to length 4 over 3 module paths (thorough: length 5 over 3 paths and length 4 over 4 paths) on the real ModuleGraph, against a plain reference graph: registered modules, get_node, depends_on, deep_depends_on, ancestors, children for every path (pair); inc_ref refused <=> the edge closes a cycle, and then the edge set is unchanged; sorted lists every module after its dependencies and fails only on a cycle.",
    note="Exhaustive only up to the stated bound. Import edges are added between registered modules (the harness registers the target first); rename targets are fresh paths. SharedModuleGraph (locking) is not exercised.",
